@@ -1544,6 +1544,15 @@ MULTI_WITNESS = '((0 (login none true true)) (1 (login none true true)) (0 (send
 
 
 # =====================================================================================================================
+# W-S10b: histories on a transport with WRITE flow control (pause_writing / resume_writing) — everything lives in harness/c10_flow.py
+# =====================================================================================================================
+def flow_family(ctx, asker, rep=None):
+    """generated flow-control histories (rep None) or the replay of one (`rep['kind'] == 'flow-history'`)"""
+    import c10_flow
+    return c10_flow.run(ctx, asker) if rep is None else c10_flow.replay(ctx, asker, rep)
+
+
+# =====================================================================================================================
 # run / replay
 # =====================================================================================================================
 class Asker:
@@ -1669,6 +1678,7 @@ def run(ctx):
     out = run_case(ctx, {'kind': 'multi-history', 'history': multi_witness_history(MULTI_WITNESS)}, asker)
     if out is not None:
         ctx.count('multi-witness-tags:' + str([[tag34(f) for f in ws] for ws in out['writes']]))
+    flow_family(ctx, asker)      # W-S10b: FIX / soup histories on a transport with write flow control
     # ---- generated histories
     for i in range(n_multi):
         h = gen_multi_history(rng, thorough=not quick)
@@ -1697,6 +1707,8 @@ def replay(ctx, path):
     ctx.cov['rule'] = 'replay of ' + path
     asker = Asker(ctx.driver)
     probe_variant(ctx)
+    if rep.get('kind') == 'flow-history':      # W-S10b
+        return flow_family(ctx, asker, rep)
     out = run_case(ctx, rep, asker)
     ctx.case('replay-marker')
     if out is None:
